@@ -12,6 +12,7 @@ THEOREMS = ["SysLoss.C04." + t for t in (
     "deadTo_step", "loop_dead", "dead_after_k_sweeps", "alwaysDead_source")]
 LEVEL_TEXT = ("Theorems (Lean 4, any ordered field): every non-source kind with a dead (0 V or flagged) supply outputs 0 V, draws 0 A and reports zero power and loss; a 0 V or phase-inactive Source and a PMux without live input likewise; a phase-inactive converter/regulator/switch/mux on a live supply draws exactly its sleep current; and in every steady state of a whole system each single-supply component below a node at 0 V is at 0 V / 0 A, hence (induction along the chain) everything below it; Props/C04Tree extends this to whole subtrees (`dead_subtree`: every node all of whose supplies are dead, PMux nodes with only dead inputs and PMux children running from another live input included), to the assembled table rows (`dead_rows`: Vin = Vout = Iin = Iout = Power = Loss = 0) and to the solver's own iterates (`dead_after_sweeps`, `loop_dead`, `dead_after_k_sweeps`: death moves one level per sweep, so what solve() returns after k sweeps is exactly 0 V / 0 A down to depth k-1 below a structurally dead source). Tied to the code on every run: all cells of trees with planted dead elements re-assembled by the model from the implementation's (v,i) (1e-9), one more model sweep reproduces (v,i), and the oracle demands exact zeros below every structurally dead element.")
 LEVEL_NOTE = ('Exact-steady-state theorems cover arbitrary trees incl. the mux; the iterate form (`dead_after_k_sweeps`) covers single-supply levels within iters-1 of a dead source - a tolerance exit before the dead front has reached deeper nodes is not excluded by a theorem (the oracle demands exact zeros on every generated case).')
+LEVEL_NOTE = LEVEL_NOTE + (" F38 (open, two faces - `F38-C04-ATOL`, `F38-C04-ATOL-SLEEP`): when every current of a phase is below numpy's fixed atol 1e-8 the solver returns its initial guess; the theorems say what k sweeps guarantee, here k = 1.")
 RULE = ("random power trees with planted dead elements: 0 V sources, phase-inactive sources / converters / regulators / switches / "
         "muxes (component phase lists that omit phases), muxes without live input; non-trivial = at least one phase contains a dead "
         "element with something below or beside it")
@@ -19,7 +20,7 @@ ASSUMPTIONS = ["exact zeros are demanded (no tolerance): a dead branch is comput
 
 
 def gen_fn(rng):
-    d = gen.gen_system(rng, phases=0.7, p_neg_src_rs=0.0, max_nodes=16)
+    d = gen.gen_system(rng, phases=0.7, p_neg_src_rs=0.0, max_nodes=16, p_micro=0.15)
     srcs = [c for c in d["comps"] if c["kind"] == "source"]
     if rng.random() < 0.35:
         rng.choice(srcs)["args"]["vo"] = 0.0
@@ -28,7 +29,27 @@ def gen_fn(rng):
             s["args"]["vo"] = 0.0
     if rng.random() < 0.25:
         moved_into_dead(rng, d)
+    if d.get("phases") and rng.random() < 0.2:
+        nano_sleep(rng, d)
+    if rng.random() < 0.3:
+        d["_solve_kw"] = {}              # the solver's DEFAULT tolerances (what most callers use); exact zeros / sleep currents all the same
     return d
+
+
+def nano_sleep(rng, d):
+    """sleep currents of pico- to nano-amperes (below every tolerance the solver uses) on stages that are switched off in some phase:
+    a sleeping stage on a live supply draws exactly its sleep current, however small"""
+    names = list(d["phases"])
+    for c in d["comps"]:
+        if c["kind"] in ("converter", "linreg", "pswitch", "pmux"):
+            c["args"]["iis"] = float("%.3g" % (10.0 ** -rng.uniform(8.3, 11.0)))
+            if not isinstance(c.get("pconf"), list) or not c["pconf"] or set(names) <= set(c["pconf"]):
+                if rng.random() < 0.6 and len(names) >= 2:
+                    c["pconf"] = rng.sample(names, rng.randint(1, len(names) - 1))
+                    if ((d.get("_build") or {}).get("retouch") or {}).get("x") == c["name"]:
+                        d["_build"].pop("retouch")          # that plan is for a component WITHOUT a phase configuration
+    if rng.random() < 0.7:
+        d["_solve_kw"] = {}
 
 
 def moved_into_dead(rng, d):
